@@ -136,6 +136,12 @@ pub fn gen_bound(t: &mut Tape, kind: i32, regime: Regime, finite: bool, ctx: &mu
         3 => {
             let a = t.int_around(0, -8, 8) as f64;
             ctx.label("bound=degenerate");
+            if a == 0.0 {
+                // the four sign combinations of a point interval at zero are all valid bounds
+                ctx.label("bound=signed-zero");
+                let (l, u) = *t.pick(&[(0.0, 0.0), (0.0, -0.0), (-0.0, 0.0), (-0.0, -0.0)]);
+                return Some(mk::bound(l, u));
+            }
             Some(mk::bound(a, a))
         }
         4 => {
@@ -270,6 +276,11 @@ pub fn gen_instance(t: &mut Tape, cfg: &InstCfg, ctx: &mut Ctx) -> GI {
     inst.sense = if cfg.sense_any && t.coin() { SENSE_MAX } else { SENSE_MIN };
     // dependencies: each dependent variable is a function of used-pool variables and earlier dependents
     let mut avail = used_pool.clone();
+    // a dependency may also be a function of a previously fixed variable (whose value the state need not repeat)
+    if !fixed.is_empty() && !dependent.is_empty() && t.p(110) {
+        avail.extend(fixed.iter().copied());
+        ctx.label("dependency-may-use-fixed");
+    }
     for d in &dependent {
         let dcfg = FuncCfg {
             max_terms: 3,
@@ -279,6 +290,9 @@ pub fn gen_instance(t: &mut Tape, cfg: &InstCfg, ctx: &mut Ctx) -> GI {
         let f = gen_function(t, &avail, &dcfg, ctx);
         if syntactic_ids_contains_any(&f, &dependent) {
             ctx.label("dependency-chain");
+        }
+        if syntactic_ids_contains_any(&f, &fixed) {
+            ctx.label("dependency-on-fixed");
         }
         inst.decision_variable_dependency.insert(*d, f);
         avail.push(*d);
